@@ -74,6 +74,17 @@ def _partition_obs(B, me, n, x_lo, x_hi, span_name='span'):
 
 
 def harness(cfg, B):
+    _harness(cfg, B)
+
+
+def _decoys(B, fd):
+    """other meshes created after the one under test (before it is inspected)"""
+    fd.mesh.unimesh(ncell=7, length=B.const(3), x0=B.const(1))
+    fd.mesh.refinedmesh(ncell=6, length=B.const(2), ratio=B.const(3))
+    fd.mesh.morphedmesh(ncell=5, length=B.const(1), morph=lambda x: x * x)
+
+
+def _harness(cfg, B):
     fd = B.fd
     np = B.np
     kind = cfg['mesh']
@@ -82,6 +93,7 @@ def harness(cfg, B):
         Lh = B.pos('L')
         x0 = B.var('x0')
         me = fd.mesh.unimesh(ncell=n, length=Lh, x0=x0)
+        _decoys(B, fd)
         _partition_obs(B, me, n, x0, x0 + Lh)
         for i in range(n):
             B.ob('uniform[%d]' % i, 'eq', me.vol()[i], Lh / n)
@@ -93,6 +105,7 @@ def harness(cfg, B):
         av = int(a) if a.denominator == 1 else float(a)
         bv = int(b) if b.denominator == 1 else float(b)
         me = fd.mesh.refinedmesh(ncell=n, length=Lh, ratio=ratio, nratioa=av, nratiob=bv)
+        _decoys(B, fd)
         _partition_obs(B, me, n, B.const(0), Lh)
         whole = (n * a / (a + b)).denominator == 1
         nc1 = int(n * a / (a + b))
@@ -140,6 +153,7 @@ def harness(cfg, B):
                 def morph(x):
                     return x + 0.3 * np.sin(x)
         me = fd.mesh.morphedmesh(ncell=n, length=Lh, x0=x0, morph=morph)
+        _decoys(B, fd)
         lo = morph(B.array([x0]))[0] if cfg['morph'] == 'cubic' else me.xf[0]
         hi = morph(B.array([x0 + Lh]))[0] if cfg['morph'] == 'cubic' else me.xf[-1]
         _partition_obs(B, me, n, lo, hi)
@@ -153,7 +167,7 @@ def harness(cfg, B):
     else:
         nx, ny = cfg['nx'], cfg['ny']
         lx, ly = B.pos('lx'), B.pos('ly')
-        me = fd.mesh2d.mesh2d(nx, ny, lx, ly)
+        me = cm.mesh2d(B, fd, nx, ny, lx, ly)
         nc = nx * ny
         nf = (nx + 1) * ny + nx * (ny + 1)
         B.ob('ncell', 'true', B.boolean(me.ncell == nc))
